@@ -89,8 +89,11 @@ def mutationsUniqueOf (all : Byte) (rows : Rows) (L : Nat) (i : Nat) : Nat :=
 def numMutationsUnique (rows : Rows) (L : Nat) (alphabet : Nat) : List Nat :=
   (List.range rows.length).map (mutationsUniqueOf (wildcardOf alphabet) rows L)
 
+/-- some residue of the first `L` columns is a byte ≥ 130 (not ASCII) -/
+def hasHighByte (rows : Rows) (L : Nat) : Bool := (List.range L).any fun j => (column rows j).any fun r => r ≥ 130
+
 /-- first occurrences, in order -/
-def firstOccurrences : List (Byte × Byte) → List (Byte × Byte)
+def firstOccurrences {α : Type} [BEq α] : List α → List α
   | [] => []
   | a :: t => a :: (firstOccurrences t).filter (· != a)
 
@@ -106,5 +109,72 @@ def allDiffs (rows : Rows) : List (Byte × Byte) :=
   | f :: rest => firstOccurrences (rest.flatMap fun r => diffsOf f.2 r.2)
 
 def diffCount (first row : Seq) (p : Byte × Byte) : Nat := (diffsOf first row).count p
+
+/-! ### differences with a reference sequence -/
+
+/-- what a nucleotide character stands for: an IUPAC letter (either case) ↦ its bases (in the order A, C, G, T);
+`-`, `*`, `X`, `.` ↦ no base; any other character is not a nucleotide character -/
+def ntBases (c : Byte) : Option (List Byte) :=
+  match upper c with
+  | 65 => some [65] | 67 => some [67] | 71 => some [71] | 84 => some [84]
+  | 82 => some [65, 71] | 89 => some [67, 84] | 83 => some [67, 71] | 87 => some [65, 84]
+  | 75 => some [71, 84] | 77 => some [65, 67]
+  | 66 => some [67, 71, 84] | 68 => some [65, 71, 84] | 72 => some [65, 67, 84] | 86 => some [65, 67, 71]
+  | 78 => some [65, 67, 71, 84]
+  | 45 => some [] | 42 => some [] | 88 => some [] | 46 => some []
+  | _ => none
+
+def basesOf (c : Byte) : List Byte := (ntBases c).getD []
+
+/-- the same set of bases, or a base in common -/
+def compatible (X Y : List Byte) : Bool := X == Y || X.any fun b => Y.contains b
+
+/-- `NumMutationsComparedToReferenceSequence`: positions whose query character is neither a gap nor the
+wildcard (`N` for nucleotides, `X` otherwise) and is incompatible with (nucleotides) / different from
+(otherwise) the reference character.  Error: different lengths, or (nucleotides) a character that is not a
+nucleotide character. -/
+def numMutations (alphabet : Nat) (s ref : Seq) : Option Nat :=
+  if s.length ≠ ref.length then none
+  else if alphabet = 1 then
+    if (ref ++ s).all (fun c => (ntBases c).isSome) then
+      some ((s.zip ref).countP fun p => p.1 != 45 && p.1 != 78 && !(compatible (basesOf p.1) (basesOf p.2)))
+    else none
+  else some ((s.zip ref).countP fun p => p.1 != 45 && p.1 != 88 && p.1 != p.2)
+
+/-- one aligned position: query character, reference character, "equal or compatible" -/
+abbrev Facing := Byte × Byte × Bool
+
+/-- the pairwise alignment cut after each reference residue: a block is the run of query characters
+inserted before a reference residue (those facing reference gaps; query gaps dropped) together with the
+aligned pair of that residue; the last block has no residue -/
+def blocks : List Facing → List (List Byte × Option Facing)
+  | [] => [([], none)]
+  | x :: t =>
+    if x.2.1 == 45 then
+      match blocks t with
+      | (ins, o) :: bs => ((if x.1 != 45 then x.1 :: ins else ins), o) :: bs
+      | [] => []
+    else ([], some x) :: blocks t
+
+/-- the mutations of the block at reference coordinate `p`: one insertion (reference `-`) holding all
+inserted characters, then the substitution when the query character is not the wildcard and is not
+equal/compatible (a deleted residue, query `-`, is listed like a substitution) -/
+def renderBlock (all : Byte) (b : (List Byte × Option Facing) × Nat) : List (Byte × Nat × List Byte) :=
+  (if b.1.1.isEmpty then [] else [(45, b.2, b.1.1)]) ++
+  (match b.1.2 with
+   | some (c, r, eq) => if c != all && !eq then [(r, b.2, [c])] else []
+   | none => [])
+
+def mutationList (all : Byte) (l : List Facing) : List (Byte × Nat × List Byte) :=
+  (blocks l).zipIdx.flatMap (renderBlock all)
+
+/-- `ListMutationsComparedToReferenceSequence(alphabet, ref, false)` -/
+def mutationListVsRef (alphabet : Nat) (s ref : Seq) : Option (List (Byte × Nat × List Byte)) :=
+  if s.length ≠ ref.length then none
+  else if alphabet = 1 then
+    if (ref ++ s).all (fun c => (ntBases c).isSome) then
+      some (mutationList 78 ((s.zip ref).map fun p => (p.1, p.2, compatible (basesOf p.1) (basesOf p.2))))
+    else none
+  else some (mutationList 88 ((s.zip ref).map fun p => (p.1, p.2, p.1 == p.2)))
 
 end Gv.Spec
